@@ -9,7 +9,6 @@ package main
 import (
 	"fmt"
 	"runtime"
-	"strconv"
 	"strings"
 	"time"
 
@@ -78,9 +77,6 @@ func runAggTraced(c traceCfg) tracedResult {
 	if c.startMs > 0 {
 		time.Sleep(time.Duration(c.startMs) * time.Millisecond)
 	}
-	if aggTickUs > 0 { // hook verifTick: the render ticker fires every aggTickUs µs instead of every 100ms
-		defer helpers.VerifSetTick(helpers.VerifSetTick(time.Duration(aggTickUs) * time.Microsecond))
-	}
 	helpers.RunAggregationLoop(ext, w, render)
 	waitReadersEnded(c)
 	waitEvent("t.done") // the ticker goroutine logs this after the hand-shake, possibly after the loop returned
@@ -99,33 +95,13 @@ func aggAnswer(summary string) string {
 	return fmt.Sprintf("ok accepted final=%s renders=%s last=%s", p[0], p[1], p[2])
 }
 
-// aggTickUs > 0: period of the render ticker for the next traced run (through the `verifTick` hook).
-var aggTickUs int
-
-func aggTraceCase(c traceCfg) string { return aggTraceCaseTick(c, 0) }
-
-// aggTraceCaseTick runs one traced case with the render ticker's period overridden (0 = the real 100ms); the
-// period is a second field of the case line (the Lean side does not need it: the transition system has no clock).
-func aggTraceCaseTick(c traceCfg, tickUs int) string {
-	aggTickUs = tickUs
+func aggTraceCase(c traceCfg) string {
 	r := runAggTraced(c)
-	aggTickUs = 0
 	blob := c.cfgString() + "/" + encodeInputs(c.inputs) + "/" + r.summary + "/" + encodeTrace(r.evs, srcIndex)
 	cs := "atrace " + blob
-	if tickUs > 0 {
-		cs += fmt.Sprintf(" tick%d", tickUs)
-		for _, e := range r.evs {
-			if e.Ev == "t.tick" {
-				aggDenseTicks++
-			}
-		}
-		aggDenseCases++
-	}
 	traceAnswers[cs] = aggAnswer(r.summary)
 	return cs
 }
-
-var aggDenseTicks, aggDenseCases int
 
 // aggTraceRun: see pipeTraceRun.  On a replay the counters (not the number of renders, which is timing)
 // of a fresh run must equal the recorded ones.
@@ -138,11 +114,7 @@ func aggTraceRun(f []string) string {
 		return "bad-blob"
 	}
 	c := parseTraceCfg(parts[0], parts[1])
-	if len(f) > 2 && strings.HasPrefix(f[2], "tick") {
-		aggTickUs, _ = strconv.Atoi(f[2][4:])
-	}
 	r := runAggTraced(c)
-	aggTickUs = 0
 	if strings.Split(r.summary, "-")[0] != strings.Split(parts[2], "-")[0] {
 		return "DIFF rerun-counters " + r.summary + " recorded " + parts[2]
 	}
@@ -243,28 +215,6 @@ func aggTraceGen(r *Rand, tier string) []string {
 		c.startMs = 30
 		c.sampleUs, c.spin = Pick(r, []int{1500, 4000}), Pick(r, []int{0, 1, 1})
 		mk(c)
-	}
-	// (e) ticker-dense schedules (hook verifTick): the ticker fires every 0.2–2ms, so that ticks, lock hand-overs
-	// and renders interleave with the receives and Samples of a run that lasts a few milliseconds
-	n = 8
-	if thorough {
-		n = 120
-	}
-	for i := 0; i < n; i++ {
-		c := base(Pick(r, []int{5, 40, 120, 300}))
-		switch r.Intn(3) {
-		case 0:
-			c.script = slowScript(r, len(c.inputs[0]), Pick(r, []int{3, 8, 20}), []int{1, 2, 5})
-		case 1:
-			c.sampleUs, c.spin = Pick(r, []int{50, 100, 400}), Pick(r, []int{0, 1})
-		default:
-			c.script = slowScript(r, len(c.inputs[0]), Pick(r, []int{3, 8}), []int{1, 3})
-			c.sampleUs, c.spin = Pick(r, []int{20, 100}), Pick(r, []int{0, 1})
-		}
-		if r.Chance(1, 4) {
-			c.renderMs = 1
-		}
-		out = append(out, aggTraceCaseTick(c, Pick(r, []int{100, 200, 500, 1000})))
 	}
 	return out
 }
